@@ -322,7 +322,7 @@ class NamespaceNode(XPathNode):
     @property
     def path(self) -> str:
         if self.parent is None:
-            return '/namespace::{name_path}'
+            return f'/namespace::{self.name_path}'
         elif isinstance(self.parent, ElementNode):
             return f"{self.parent.path}/namespace::{self.name_path}"
         return f"/namespace::{self.name_path}"
@@ -739,7 +739,7 @@ class ProcessingInstructionNode(XPathNode):
     @property
     def path(self) -> str:
         if self.parent is None:
-            return '/processing-instruction({self.name})[1]'
+            return f'/processing-instruction({self.name})[1]'
 
         pos = self.parent.get_child_position(self)
         if isinstance(self.parent, ElementNode):
